@@ -56,6 +56,8 @@ static inline CodeHolder* make_holder(Arch arch, uint32_t n) {
   memset(label_tab, 0, sizeof(label_tab)); memset(reloc_mem, 0, sizeof(reloc_mem));
 #endif
   c->_environment.init(arch);
+  c->_fixups = nullptr; c->_unresolved_fixup_count = 0; c->_fixup_data_pool._data = nullptr;
+  c->_address_table_section = nullptr; c->_address_table_entries._root = nullptr; c->_attached_first = nullptr; c->_attached_last = nullptr;
   c->_base_address = Globals::kNoBaseAddress;
   c->_arena._ptr = arena_block; c->_arena._end = arena_block + sizeof(arena_block);  // see set_arena
   shared_extra._section_id = Globals::kInvalidId; shared_extra._parent_id = Globals::kInvalidId;
@@ -110,3 +112,11 @@ static inline uint64_t load_le(const uint8_t* p, uint32_t n) { uint64_t v = 0; f
 static inline int64_t sext(uint64_t v, uint32_t bits) { return bits >= 64 ? int64_t(v) : int64_t(v << (64 - bits)) >> (64 - bits); }
 static inline uint64_t lsb_mask(uint32_t n) { return n >= 64 ? ~0ull : ((1ull << n) - 1); }
 }  // namespace chenv
+
+// Arena / vector growth entry points. The harness tables have spare capacity and the arena cursor points at a static block, so
+// none of these is reachable; each stub is a proof obligation saying so (an undefined external would hand CBMC a wild pointer).
+ASMJIT_BEGIN_NAMESPACE
+void* Arena::_alloc_oneshot(size_t) noexcept { V_ASSERT(false, "stub reached: Arena _alloc_oneshot (static arena block exhausted)"); return nullptr; }
+Error ArenaVectorBase::_reserve_additional(Arena&, size_t, ItemSize<true>) noexcept { V_ASSERT(false, "stub reached: ArenaVector growth (pow2 item)"); return Error::kOutOfMemory; }
+Error ArenaVectorBase::_reserve_additional(Arena&, size_t, ItemSize<false>) noexcept { V_ASSERT(false, "stub reached: ArenaVector growth"); return Error::kOutOfMemory; }
+ASMJIT_END_NAMESPACE
